@@ -4,7 +4,7 @@ cd "$(dirname "$0")" || exit 2
 PYTHONPATH=/verif:/repo/src PYTHONHASHSEED=0 PYTHONDONTWRITEBYTECODE=1 exec /venv/bin/python - <<'PY'
 import sys
 from harness import common
-r = common.build(timeout=3000)
+r = common.build(None)
 print(r.log[-3000:])
 bad = common.scan_forbidden()
 if bad:
